@@ -47,12 +47,16 @@ def run(ctx, tier):
         ctx.rule(r, t)
     ctx.rule("P6", "(second copy of the PATH set) path_signature_table flags exactly the bytes of the path percent-encode set: "
                    "no byte outside 0x21..0x7E is copied verbatim by the prepared-path shortcuts")
+    ctx.rule("P7", "both ASCII lower-casing kernels (the one on the host parsers' cheap path and the one inside the IDNA route) "
+                   "lower-case exactly A-Z, lane by lane: the two routes give the same host, so the href re-parses to itself")
     cfgs = C.configs_for(tier, thorough=["release", "devchecks", "amalgamated", "nopattern"])
     fxs = C.load_configs(ctx, cfgs)
     for name in cfgs:
         ctx.set_config(name)
         check(ctx, fxs[name])
         C.check_path_signature(ctx, fxs[name], "P6")
+        from rules import swar
+        swar.check(ctx, fxs[name], "P7")
 
 
 def check(ctx, fx):
